@@ -3079,10 +3079,7 @@ template <typename T>
           sequences->validate(severity::fatal, name, loc);
         }
         sequences->increment_call();
-        if (sequences->is_satisfied())
-        {
-          sequences->retire_predecessors();
-        }
+        sequences->retire_predecessors();
         if (sequences->is_saturated())
         {
           sequences->retire();
